@@ -61,8 +61,14 @@ let run_script (st0 : ist) (script : string) : string =
             (match mult_reset mi with
              | Ok mi' -> st := Mult (mi', n); "r"
              | _ -> "r=P")
-          | Mult (mi, _), 'd' ->
-            Printf.sprintf "d=%d" (b2i (List.for_all (fun f -> f.it_done) mi.mi_fits))
+          | Mult (mi, n), ('R' | 'F') ->
+            (match mult_set_dir mi (ch = 'R') with
+             | Ok mi' -> st := Mult (mi', n); String.make 1 ch
+             | _ -> Printf.sprintf "%c=P" ch)
+          | Mult (mi, n), 'd' ->
+            let (mi', d) = mult_done mi in
+            st := Mult (mi', n);
+            Printf.sprintf "d=%d" (b2i d)
           | _, c -> Printf.sprintf "%c=?" c in
         out := s :: !out;
         if String.length s >= 2 && String.sub s (String.length s - 2) 2 = "=P" then stop := true
